@@ -128,6 +128,28 @@ def run(facts, rep, tier, ctx):
             n += 2
             rep.ob("R19.1", b.id, "%s stores the time argument" % op, okv, fmt(val)[:50] if val else "?", line)
             rep.ob("R19.1", b.id, "%s re-times the entry at its own path" % op, okk, "", line)
+    # a setter is refused for a missing entry and for nothing else: all three apply to files and directories alike (the root
+    # included), so the only error a setter returns is the FileNotFound of its own lookup
+    for op in FIELD_OF:
+        b = mm.ops.get(op)
+        if b is None:
+            continue
+        extra = []
+        for ct, _, rbb in mm.inter.ret_cases(b):
+            if mm.inter.case_polarity(ct) != "err":
+                continue
+            tn = norm(ct)
+            from ..terms import passthrough_of
+            src_ = passthrough_of(tn)       # the call whose error is handed on
+            lookup_miss = src_[0] == "call" and src_[1] in ("Option::ok_or", "Option::ok_or_else") and bool(src_[2]) and \
+                any(y[0] == "call" and y[1] in ("HashMap::get_mut", "HashMap::get", "BTreeMap::get_mut") for y in walk(src_[2][0])) and \
+                not any(x[0] == "agg" and x[1] == "error::VfsErrorKind" and x[2] != "FileNotFound" for x in walk(tn))
+            if not lookup_miss:
+                extra.append(fmt(tn)[:70])
+        n += 1
+        rep.ob("R19.1", b.id, "%s refuses nothing but a missing entry" % op, not extra, "" if not extra else
+               "%s can also fail with %s: for some existing entries (a directory, the root) the value cannot be set although the "
+               "other time stamps can" % (op, "; ".join(extra)), b.span)
     rep.floor("setter obligations", n, 12)
     # metadata copies same-named fields
     b = mm.ops.get("metadata")
@@ -167,6 +189,24 @@ def run(facts, rep, tier, ctx):
     c04.overlay_read_delegation(facts, rep, ws, "R19.4o")
     c09.table_u(facts, rep, ws, "R19.4o", only=("set_creation_time", "set_modification_time", "set_access_time"))
     path_setter_rules(facts, rep, ws, D, "R19.4p")
+    # a backend that does not override a setter reports not-supported and changes nothing: the trait's provided method builds
+    # NotSupported and nothing else (shared with C12 R12.3c / C18 R18.1)
+    for b_ in facts.bodies:
+        if b_.trait_item_of and b_.trait_item_of.rsplit("::", 1)[-1] in ("FileSystem", "AsyncFileSystem") and b_.name in FIELD_OF:
+            kinds_ = set()
+            calls_ = []
+            for cb_ in D.inter.code_bodies(b_):
+                for blk_ in cb_.blocks:
+                    if blk_.cleanup:
+                        continue
+                    for st_ in blk_.stmts:
+                        if st_.kind == "assign" and st_.rv.kind == "agg" and st_.rv.agg.get("adt") == "error::VfsErrorKind":
+                            kinds_.add(st_.rv.agg["variant"])
+                calls_ += [s_.short for s_ in D.inter.sites(cb_) if s_.short not in ("From::from", "Into::into", "Pin::new", "Box::pin", "Box::new")]
+            okd_ = kinds_ == {"NotSupported"} and not [c for c in calls_ if not c.startswith(("Pin::", "Box::", "future::", "Future::", "ready"))]
+            rep.ob("R19.4d", b_.id, "provided %s only answers NotSupported" % b_.name, okd_, "" if okd_ else
+                   "the trait default of %s builds %s / calls %s: a backend without time stamps reports success (or another error) "
+                   "although nothing can be stored" % (b_.name, sorted(kinds_), calls_[:3]), b_.span)
     # R19.5 appending keeps the entry (and with it its creation time) until the writer publishes: append_file neither
     # rewrites the stored entry nor goes through create_file
     from . import c01 as _c01
